@@ -633,3 +633,43 @@ package k8s
 //@   modifies *
 //@   ensures [C03,C02] captured: (err == nil && res != NotCaptured && !(protocol == "" && port == "") && 1 <= atoiVal(port) && atoiVal(port) <= 65535) ==>
 //@         anpPortsCapture(rulePorts, dst, protocol, port)
+
+// ---------------------------------------------------------------------------------------------
+// ANP / BANP rule ports, list side (C02, C03): the connection set of a rule is the union over its port entries of the
+// same per-entry semantics the eval side uses (anpRulePortMatch); no ports = everything
+// ---------------------------------------------------------------------------------------------
+
+//@ fun anpPortsPts(ports *[]apisv1a.AdminNetworkPolicyPort, dst Peer, q string, n int) bool = isPP(q, n)
+//@     && (ports == nil || (exists k int :: {deref(ports)[k]} 0 <= k && k < len(deref(ports)) && anpRulePortMatch(deref(ports)[k], dst, q, n)))
+
+//@ func ruleConnections
+//@   requires realDst(dst) && dyntype(dst, *PodPeer) && validAPs(ports)
+//@   modifies *
+//@   ensures [C02,C03] wf: res1 == nil ==> (wfCS(res0) && fresh(res0) && freshSep(res0)) && allKept()
+//@   ensures [C02,C03] pts: res1 == nil ==> (forall q v1.Protocol, n int :: {iset(res0.AllowedProtocols[q].Ports)[n]} pts(res0, q, n) == anpPortsPts(ports, dst, q, n))
+//@   loop 1:
+//@     invariant idx: ports != nil
+//@     invariant wf: wfCS(res) && fresh(res) && !res.AllowAll && freshSep(res) && allKept()
+//@     invariant pts: forall q v1.Protocol, n int :: {iset(res.AllowedProtocols[q].Ports)[n]}
+//@         ptsP(res, q, n) == (isPP(q, n) && (exists k int :: {deref(ports)[k]} 0 <= k && k <= rangeindex && anpRulePortMatch(deref(ports)[k], dst, q, n)))
+//@   at call 14 use: wf, pts, others
+//@   before call 14 cut:
+//@     assert ports: wfPS(portSet) && inRange(portSet) && psApart(res, portSet) && wfCS(res) && !res.AllowAll && freshSep(res) && allKept() && fresh(res) && ports != nil
+//@     assert nums: forall n int :: {iset(portSet.Ports)[n]} iset(portSet.Ports)[n] == anpRulePortMatch(deref(ports)[rangeindex], dst, protocol, n)
+//@     assert proto: isProto(protocol) && 0 <= rangeindex && rangeindex < len(deref(ports))
+//@         && (deref(ports)[rangeindex].PortNumber != nil ==> protocol == protoOr(deref(ports)[rangeindex].PortNumber.Protocol))
+//@         && ((deref(ports)[rangeindex].PortNumber == nil && deref(ports)[rangeindex].NamedPort != nil) ==>
+//@               (exists i int :: {dstPod(dst).Ports[i]} 0 <= i && i < len(dstPod(dst).Ports) && dstPod(dst).Ports[i].Name == deref(deref(ports)[rangeindex].NamedPort)
+//@                  && (forall j int :: {dstPod(dst).Ports[j]} (0 <= j && j < i) ==> dstPod(dst).Ports[j].Name != deref(deref(ports)[rangeindex].NamedPort)) && protocol == cpProto(dstPod(dst).Ports[i])))
+//@         && ((deref(ports)[rangeindex].PortNumber == nil && deref(ports)[rangeindex].NamedPort == nil) ==> (deref(ports)[rangeindex].PortRange != nil && protocol == protoOr(deref(ports)[rangeindex].PortRange.Protocol)))
+//@     assert sofar: forall q v1.Protocol, n int :: {iset(res.AllowedProtocols[q].Ports)[n]}
+//@         ptsP(res, q, n) == (isPP(q, n) && (exists k int :: {deref(ports)[k]} 0 <= k && k <= rangeindex - 1 && anpRulePortMatch(deref(ports)[k], dst, q, n)))
+
+// C03 for ANP / BANP rule ports: the eval-side test (anpPortContains) agrees with membership (ConnectionSet.Contains)
+// in the list-side set (ruleConnections) - both are proved against anpRulePortMatch
+//@ lemma [C03,C02] anpRuleAgree(c *common.ConnectionSet, ports *[]apisv1a.AdminNetworkPolicyPort, dst Peer, protocol string, port string)
+//@   reveal wfCS
+//@   requires wfCS(c) && !c.AllowAll && ports != nil && 1 <= atoiVal(port) && atoiVal(port) <= 65535
+//@   requires forall q v1.Protocol :: {foldEq(q, protocol)} {foldEq(protocol, q)} pts(c, q, atoiVal(port)) == anpPortsPts(ports, dst, q, atoiVal(port))
+//@   ensures agree: (c.AllowAll || (exists q v1.Protocol :: q in c.AllowedProtocols && foldEq(protocol, q) && iset(c.AllowedProtocols[q].Ports)[atoiVal(port)]))
+//@         == anpPortsCapture(ports, dst, protocol, port)
